@@ -286,11 +286,13 @@ async fn execute(w: &mut World, n: u64, src: &str, case: &J, exp: Option<&str>) 
         Ok(u) => {
             f.insert("u".into(), json!(u.as_str()));
             f.insert("host".into(), json!(u.host_str().unwrap_or("")));
+            f.insert("hl".into(), json!(u.host_str().unwrap_or("").split('.').collect::<Vec<_>>()));
             f.insert("scheme".into(), json!(u.scheme()));
         }
         Err(_) => {
             f.insert("u".into(), json!(""));
             f.insert("host".into(), json!(""));
+            f.insert("hl".into(), json!([""]));
             f.insert("scheme".into(), json!(""));
         }
     }
@@ -446,7 +448,19 @@ fn model_uri(class: &str, regs: &str, k: u64) -> String {
         }
         "loop" => v(&["http://localhost:8080/cb", "http://127.0.0.1:7777/cb", "http://[::1]:9000/cb", "http://127.8.8.8/cb"]),
         "loophttps" => v(&["https://localhost:8443/cb", "https://127.0.0.1/cb"]),
+        "loopip" => v(&["http://127.0.0.2:8765/cb", "http://127.255.255.254/cb", "http://127.8.8.8:1/cb", "http://127.1:8080/cb"]),
+        "loopv6" => v(&["http://[::1]:8765/cb", "http://[0:0:0:0:0:0:0:1]/cb"]),
         "loopnear" => v(&["http://localhost.evil.org/cb", "http://127.0.0.1.evil.org/cb", "http://128.0.0.1/cb", "http://localhost4/cb"]),
+        "looknot" => v(&["http://notlocalhost/cb", "http://notlocalhost:8765/cb", "http://xlocalhost/", "http://mylocalhost:80/cb"]),
+        "lookdash" => v(&["http://evil-localhost:8765/cb", "http://evil-localhost/cb", "http://not-localhost:1/"]),
+        "looksub" => v(&["http://app.localhost/cb", "http://evil.localhost:8765/cb", "http://a.b.localhost/"]),
+        "looksuffix" => v(&["http://localhost.evil.example/cb", "http://localhost.localdomain:8080/cb", "http://localhost.example.com/"]),
+        "lookx" => v(&["http://localhostx/cb", "http://localhost1:8765/cb", "http://localhost-evil/cb", "http://localhos/cb"]),
+        "lookhttps" => v(&["https://notlocalhost/cb", "https://evil-localhost:8765/cb", "https://app.localhost/cb", "https://localhost.evil.example/cb"]),
+        "ipsuffix" => v(&["http://127.0.0.1.evil.example/cb", "http://127.0.0.1.nip.test:8765/cb", "http://127.0.0.evil.example/"]),
+        "ipnear" => v(&["http://128.0.0.1/cb", "http://126.255.255.255:8765/cb", "http://1.0.0.127/cb", "http://10.127.0.1/cb", "http://0.0.0.0:8080/cb"]),
+        "v6near" => v(&["http://[::2]/cb", "http://[::ffff:127.0.0.1]:8765/cb", "http://[::]/cb", "http://[fe80::1]/cb"]),
+        "loopuser" => v(&["http://localhost@evil.example/cb", "http://127.0.0.1@evil.example:8765/cb", "http://localhost:80@evil.example/", "http://[::1]@evil.example/cb"]),
         "appreg" => "app://cheese".to_string(),
         "appunreg" => v(&["app://cheesy", "app://cheese/x", "app://cheese?x=1", "other://cheese"]),
         _ => v(&["https://evil.example.org/oauth2/cb", "https://app.example.org/oauth2/cb"]),
@@ -592,8 +606,13 @@ fn random_req(rng: &mut Rng, cfg: &J) -> J {
             3 => {
                 uri = match rng.below(5) {
                     0 => base.replacen("://", "://user:pw@", 1),
-                    1 => rng.pick(&["http://localhost:8080/cb", "http://127.0.0.1/x", "https://localhost/", "http://[::1]:1/cb", "http://127.8.8.8:80/"]).to_string(),
-                    2 => rng.pick(&["http://localhost.evil.org/cb", "http://128.0.0.1/", "http://localhost4/", "http://127.0.0.1.nip.test/"]).to_string(),
+                    1 => rng.pick(&["http://localhost:8080/cb", "http://127.0.0.1/x", "https://localhost/", "http://[::1]:1/cb", "http://127.8.8.8:80/",
+                                    "http://127.0.0.2:8765/cb", "https://127.255.255.254/", "http://LOCALHOST:3000/cb", "http://[0:0:0:0:0:0:0:1]:9/"]).to_string(),
+                    2 => rng.pick(&["http://localhost.evil.org/cb", "http://128.0.0.1/", "http://localhost4/", "http://127.0.0.1.nip.test/",
+                                    "https://notlocalhost/cb", "http://evil-localhost:8765/cb", "http://app.localhost/cb", "http://localhostx/",
+                                    "http://localhost.evil.example/cb", "http://127.0.0.1.evil.example/", "http://126.255.255.255/cb", "http://[::2]/cb",
+                                    "http://[::ffff:127.0.0.1]/cb", "http://localhost@evil.example/", "http://127.0.0.1:80@evil.example/cb",
+                                    "https://xlocalhost:8443/", "http://0.0.0.0/cb"]).to_string(),
                     3 => rng.pick(&["app://cheese", "app://cheesy", "com.example.app://cb", "com.example.app://cb/x", "myapp://auth/done?x=1"]).to_string(),
                     _ => rng.pick(&["https://evil.example.org/oauth2/cb", "https://app.example.com.evil.org/cb", "https://portal.example.com/"]).to_string(),
                 }
@@ -610,7 +629,12 @@ fn random_req(rng: &mut Rng, cfg: &J) -> J {
                 }
             }
             7 => prompt = *rng.pick(&["none", "login"]),
-            _ => {}
+            _ => {
+                // loopback look-alikes: not loopback, not registered
+                uri = rng.pick(&["https://notlocalhost/cb", "http://evil-localhost:8765/cb", "http://app.localhost/cb", "http://localhostx/cb",
+                                 "http://localhost.evil.example/cb", "http://127.0.0.1.evil.example/cb", "http://128.0.0.1/cb", "http://[::2]/cb",
+                                 "http://localhost@evil.example/cb", "https://mylocalhost:8443/cb", "http://[::ffff:127.0.0.1]/cb"]).to_string()
+            }
         }
     }
     let uri = if rng.chance(1, 12) { uri.to_uppercase().replace("HTTPS://", "https://").replace("HTTP://", "http://") } else { uri };
